@@ -170,6 +170,7 @@ func (e *Exec) noteLoaded(st *State, t *Term, typ types.Type, path string) {
 		switch {
 		case n >= 4 && path[n-4:] == "$arr":
 			st.assume(mkGe(t, tZero))
+			st.assume(mkLe(t, st.ghostVar(allocGhost, SInt)))
 		}
 		return
 	}
@@ -177,7 +178,9 @@ func (e *Exec) noteLoaded(st *State, t *Term, typ types.Type, path string) {
 	case rInt:
 		st.assume(inRangeTerm(t, typ))
 	case rRef, rOpaque:
+		// every reference stored in the heap was allocated before it is read
 		st.assume(mkGe(t, tZero))
+		st.assume(mkLe(t, st.ghostVar(allocGhost, SInt)))
 	}
 }
 
